@@ -433,6 +433,15 @@ func (g *docgen) rawElement() {
 				}
 				sb.WriteString(q)
 			}
+			if rapid.IntRange(0, 3).Draw(t, "escopen") == 0 {
+				// the escape is not closed: outside a nested <script> the end tag of the element ends it all the same
+				if in {
+					sb.WriteString(" </" + randCase(t, "script") + "> ")
+				}
+				g.classes["script-escape-unclosed"]++
+				k = 1 // the end tag of the element follows
+				continue
+			}
 			// any run of two or more dashes followed by > closes the escape
 			sb.WriteString(rapid.SampledFrom([]string{"-->", "-->", "--->", "---->", "- -->", "--x--->"}).Draw(t, "esccloser"))
 			g.classes["script-escape"]++
